@@ -258,9 +258,6 @@ func hexDecode(s string) ([]byte, error) {
 }
 
 // wireStep sends one request on one connection and prints its line.
-// wireHangAfter: a request that has not returned after this long counts as hanging (C14).
-const wireHangAfter = 20 * time.Second
-
 func wireStep(db *redka.DB, h redcon.HandlerFunc, c *wireConn, req [][]byte) {
 	seq++
 	fail := func(where string, err error) {
